@@ -39,15 +39,23 @@ fn visit_lits(q: &mut Query, f: &mut dyn FnMut(&'static str, &mut Expr)) {
                 ex(b, if kind == "where" { "where_in_list" } else { kind }, f);
             }
             Expr::Not(a) | Expr::IsNull(a, _) => ex(a, kind, f),
-            Expr::List(l) => {
-                let k = if kind == "unwind" { "unwind_list_elem" } else if kind == "where_in_list" { "where_in_list_elem" } else { "list_elem" };
-                for x in l {
-                    ex(x, k, f);
+            Expr::List(_) => {
+                // the whole collection is a position too (`UNWIND $p`, `x IN $p`)
+                f(if kind == "unwind" { "unwind_whole_list" } else if kind == "where_in_list" { "where_in_whole_list" } else { "whole_list" }, e);
+                if let Expr::List(l) = e {
+                    let k = if kind == "unwind" { "unwind_list_elem" } else if kind == "where_in_list" { "where_in_list_elem" } else { "list_elem" };
+                    for x in l {
+                        ex(x, k, f);
+                    }
                 }
             }
-            Expr::Map(m) => {
-                for (_, x) in m {
-                    ex(x, "map_value", f);
+            Expr::Map(_) => {
+                // `SET n += $p`, `SET n = $p`, `RETURN $p`
+                f(if kind == "set_value" || kind == "merge_set_value" { "set_whole_map" } else { "whole_map" }, e);
+                if let Expr::Map(m) = e {
+                    for (_, x) in m {
+                        ex(x, "map_value", f);
+                    }
                 }
             }
             Expr::Func(_, args) => {
@@ -134,13 +142,55 @@ fn visit_lits(q: &mut Query, f: &mut dyn FnMut(&'static str, &mut Expr)) {
         visit_lits(rhs, f);
     }
 }
+/// Names the query binds (pattern variables, UNWIND variables, WITH / RETURN aliases), in order of
+/// appearance. A parameter may be called like any of them: `$n` and the variable `n` live in
+/// different namespaces, and an evaluator that confuses them answers from the row instead of
+/// refusing or using the value (seeded change C35b).
+fn bound_names(q: &Query) -> Vec<String> {
+    let mut out: Vec<String> = vec![];
+    let mut add = |v: &Option<String>| {
+        if let Some(v) = v {
+            if !out.contains(v) {
+                out.push(v.clone());
+            }
+        }
+    };
+    for c in &q.clauses {
+        match c {
+            Clause::Match { pats, .. } | Clause::Create(pats) => {
+                for p in pats {
+                    add(&p.start.var);
+                    for (r, n) in &p.steps {
+                        add(&r.var);
+                        add(&n.var);
+                    }
+                }
+            }
+            Clause::Merge { pat, .. } => {
+                add(&pat.start.var);
+                for (r, n) in &pat.steps {
+                    add(&r.var);
+                    add(&n.var);
+                }
+            }
+            Clause::Unwind { var, .. } => add(&Some(var.clone())),
+            Clause::With(p) | Clause::Return(p) => {
+                for i in &p.items {
+                    add(&i.alias);
+                }
+            }
+            _ => {}
+        }
+    }
+    out
+}
 fn lit_positions(q: &Query) -> Vec<(&'static str, LV)> {
     let mut q = q.clone();
     let mut out = vec![];
-    visit_lits(&mut q, &mut |k, e| {
-        if let Expr::Lit(v) = e {
-            out.push((k, v.clone()));
-        }
+    visit_lits(&mut q, &mut |k, e| match e {
+        Expr::Lit(v) => out.push((k, v.clone())),
+        // a whole list / map literal: the original value is not needed
+        _ => out.push((k, LV::Null)),
     });
     out
 }
@@ -293,7 +343,7 @@ fn main() {
             let vi = w["value_index"].as_u64().unwrap() as usize;
             let indexed = w["indexed"].as_bool().unwrap_or(false);
             let mut params = BTreeMap::new();
-            params.insert("p".to_string(), values()[vi].clone());
+            params.insert(w["param_name"].as_str().unwrap_or("p").to_string(), values()[vi].clone());
             println!("graph   : {}", g.describe());
             println!("literal : {}\n  -> {:?}", w["literal_query"].as_str().unwrap(), run_one(is_write, indexed, g, w["literal_query"].as_str().unwrap(), &BTreeMap::new()));
             println!("param   : {} with $p = {}\n  -> {:?}", w["param_query"].as_str().unwrap(), values()[vi].lit(), run_one(is_write, indexed, g, w["param_query"].as_str().unwrap(), &params));
@@ -304,21 +354,24 @@ fn main() {
             .map(|(name, q, is_write)| {
                 let mut t = Tally::default();
                 let pos = lit_positions(q);
+                // parameter names: a neutral one, and the first two names the query itself binds
+                let mut pnames: Vec<String> = vec!["p".to_string()];
+                pnames.extend(bound_names(q).into_iter().filter(|n| n != "p").take(2));
                 for (idx, (kind, _orig)) in pos.iter().enumerate() {
-                    for (vi, v) in vals.iter().enumerate() {
+                    for (vi, v, pname) in vals.iter().enumerate().flat_map(|(vi, v)| pnames.iter().map(move |n| (vi, v, n))) {
                         let lit_q = replace_lit(q, idx, Expr::Lit(v.clone())).print();
-                        let par_q = replace_lit(q, idx, Expr::Param("p".into())).print();
+                        let par_q = replace_lit(q, idx, Expr::Param(pname.clone())).print();
                         let mut params = BTreeMap::new();
-                        params.insert("p".to_string(), v.clone());
+                        params.insert(pname.clone(), v.clone());
                         for (gname, g, indexed) in gs.iter().flat_map(|(n, g)| [(n, g, false), (n, g, true)]) {
                             let indexed: bool = indexed;
                             t.evaluations += 1;
                             *t.by_kind.entry(kind.to_string()).or_default() += 1;
                             let (lo, lg) = run_one(*is_write, indexed, g, &lit_q, &BTreeMap::new());
                             let (po, pg) = run_one(*is_write, indexed, g, &par_q, &params);
-                            let witness = || json!({"query": name, "literal_query": lit_q, "param_query": par_q, "value": v.lit(), "value_index": vi, "graph": gname, "indexed": indexed, "write": is_write, "position": kind});
+                            let witness = || json!({"query": name, "literal_query": lit_q, "param_query": par_q, "value": v.lit(), "value_index": vi, "param_name": pname, "graph": gname, "indexed": indexed, "write": is_write, "position": kind});
                             let mut flag = |sym: &str, msg: String| {
-                                let sig = format!("{kind}:{}|{sym}{}", vtype(v), if indexed { "|indexed" } else { "" });
+                                let sig = format!("{kind}:{}|{sym}{}{}", vtype(v), if indexed { "|indexed" } else { "" }, if pname != "p" { "|param-named-like-a-variable" } else { "" });
                                 let e = t.groups.entry(sig).or_insert((0, msg, witness()));
                                 e.0 += 1;
                             };
@@ -374,7 +427,7 @@ fn main() {
         ctx.cov("evaluations", tally.evaluations);
         ctx.cov("generator_cardinality", json!({"queries": qs.len(), "graphs": gs.len(), "values": vals.len(), "evaluations": tally.evaluations}));
         ctx.cov("distinct_nontrivial", tally.compared);
-        ctx.cov("rule", "a case = (query, literal position, value, graph, with / without property indexes on :A(p) and :B(p)), all distinct; non-trivial when the parameterised run returned rows so that rows (and, for writes, the resulting graph) were compared with the literal run");
+        ctx.cov("rule", "a case = (query, literal position, value, parameter name [p, or a name the query binds as a variable], graph, with / without property indexes on :A(p) and :B(p)), all distinct; non-trivial when the parameterised run returned rows so that rows (and, for writes, the resulting graph) were compared with the literal run");
         ctx.cov("param_refused", tally.param_refused);
         ctx.cov("both_refused", tally.both_err);
         ctx.cov("cases_per_position_kind", json!(tally.by_kind));
